@@ -93,7 +93,7 @@ func init() {
 	})
 	register(&Prop{
 		ID:    "C15",
-		Rules: []func(*core.Ctx){RDirAcc, RDirBits, RReverse, RLookDir, RDirCtx, RDirTrunc, RNonNegLen, RAnchorSib, RBmDir, RSib, rDirFoldOnly, RLookFact, REndChild, RTextEnd, REndDir, RDirCount, RStartSent, RRoomLTR},
+		Rules: []func(*core.Ctx){RDirAcc, RDirBits, RReverse, RLookDir, RDirCtx, RDirTrunc, RNonNegLen, RAnchorSib, RBmDir, RSib, rDirFoldOnly, RLookFact, REndChild, RTextEnd, REndDir, RDirCount, RStartSent, RRoomLTR, RExclEnd},
 		Explanation: "Structural carriers of direction: R-DIRACC (who may move the text position), R-DIRBITS (every text-consuming emit carries the node's Rtl bit), R-REVERSE (concatenations are attached reversed), R-LOOKDIR (lookahead clears / lookbehind sets the direction), R-DIRCTX (left-to-right-only reasoning stays in left-to-right context), R-SIB (sibling handlers agree, including on bump()), R-DIRFOLD (folds over the match sequence are direction-aware). " +
 			"That each right-to-left branch computes the mirrored result is NOT decided.",
 	})
